@@ -359,6 +359,13 @@ class ExprMixin:
                     return self.lift(st, ast.literal_eval(mi.assigns[name]), node)
                 except Exception:
                     pass
+                expr = mi.assigns[name]
+                if not any(isinstance(m, (ast.Name, ast.Call, ast.Attribute)) for m in ast.walk(expr)):
+                    # a constant expression such as 2**40 - 1 (modules that cannot be imported here are read from the AST only)
+                    try:
+                        return self.lift(st, eval(compile(ast.Expression(expr), '<const>', 'eval'), {'__builtins__': {}}), node)
+                    except Exception:
+                        pass
         import builtins
         if hasattr(builtins, name):
             obj = getattr(builtins, name)
@@ -403,6 +410,16 @@ class ExprMixin:
         return None if not hints else hints.get(ast.unparse(node))
 
     def e_Dict(self, st, e):
+        if e.keys and all(isinstance(k, ast.Constant) and isinstance(k.value, str) for k in e.keys):
+            # a small record with literal string keys (e.g. the JSON object written to a file): kept as a python-side
+            # record value; only literal keys can be read or added
+            out = []
+            for s, vals in self.eval_many(st, e.values):
+                if s.exc is not None:
+                    out.append((s, None))
+                else:
+                    out.append((s, VRec({k.value: v for k, v in zip(e.keys, vals)})))
+            return out
         if e.keys:
             self.unsupported(e, 'non-empty dict literal')
         ty = self.hint_type(e)
@@ -898,6 +915,13 @@ class ExprMixin:
                     out.append((ok, self.wf(ok, sq.at(z3.simplify(it)))))
                 if ex is not None:
                     out.append((ex, None))
+            elif isinstance(base, VRec):
+                if not (isinstance(idx, VStr) and idx.lit is not None):
+                    self.unsupported(node, 'record access with a computed key')
+                if idx.lit in base.fields:
+                    out.append((s, base.fields[idx.lit]))
+                else:
+                    out.append((self.raise_exc(s, 'builtins:KeyError'), None))
             elif isinstance(base, VDict):
                 has = self.dict_has(s, base, idx)
                 ok, ex = self.guard(s, has, 'builtins:KeyError')
